@@ -75,6 +75,9 @@ func FillMissingLinearAdvanceProof(
 		if err != nil {
 			return err
 		}
+		if partialProof == nil || partialProof.DualProof == nil {
+			return store.ErrCorruptedData
+		}
 		lAdvProof.InclusionProofs[txID-startTxID-1] = DigestsFromProto(partialProof.DualProof.InclusionProof)
 	}
 
@@ -90,6 +93,9 @@ func FillMissingLinearAdvanceProof(
 		// If there's any inconsistency, the proof validation will fail detecting incorrect
 		// response from the server.
 		return err
+	}
+	if partialProof == nil || partialProof.DualProof == nil || partialProof.DualProof.LinearProof == nil {
+		return store.ErrCorruptedData
 	}
 	lAdvProof.LinearProofTerms = DigestsFromProto(partialProof.DualProof.LinearProof.Terms)
 
